@@ -14,6 +14,7 @@ import (
 	"strconv"
 	"strings"
 	"sync"
+	"sync/atomic"
 	"time"
 
 	otellog "go.opentelemetry.io/otel/log"
@@ -32,12 +33,19 @@ import (
 
 // emitter writes contract-level events of one scenario; a nil emitter (edge replay) drops them.
 type emitter struct {
-	tw *vh.TraceWriter
-	sc int
+	tw     *vh.TraceWriter
+	sc     int
+	closed atomic.Bool
+}
+
+func (e *emitter) close() {
+	if e != nil {
+		e.closed.Store(true)
+	}
 }
 
 func (e *emitter) ev(kind string, kv ...any) {
-	if e == nil || e.tw == nil {
+	if e == nil || e.tw == nil || e.closed.Load() {
 		return
 	}
 	m := map[string]any{"ev": kind, "sc": e.sc}
@@ -763,10 +771,10 @@ func (w *lpWorld) cleanup() {
 // ---- metric world
 
 type mpWorld struct {
-	mp      *sdkmetric.MeterProvider
-	readers map[string]mReader
-	comps   map[string]*compBase
-	order   []string
+	mp        *sdkmetric.MeterProvider
+	readers   map[string]mReader
+	comps     map[string]*compBase
+	order     []string
 	old       metric.Int64Counter
 	initErr   string
 	initStack string
